@@ -1,4 +1,5 @@
 (** extraction entry point for the C21 correspondence check and judge *)
+(* built before extraction (lib/vplib.py Model reads these names): ErgV.Common.Sx ErgV.Graph.Model ErgV.Graph.Spec *)
 From Coq Require Import ZArith List Bool Arith.
 From ErgV Require Import Common.Sx Graph.Model Graph.Spec.
 Import ListNotations.
